@@ -100,7 +100,6 @@ HARNESS h_poolm_8_8_4() { pool_seq<false, 8, 8, 4>(); }
 HARNESS h_poolm_1_4_1_1_1() { pool_seq<true, 1, 4, 1, 1, 1>(); }
 // m3-type: four constants in one tree (any insertion order / shape), written out by fill()
 HARNESS h_poolm_4_4_4_4() { pool_seq<true, 4, 4, 4, 4>(); }
-// previously out of reach with the real tree
-HARNESS h_poolm_16_8_4() { pool_seq<true, 16, 8, 4>(); }
+// previously out of reach with the real tree (16,8,4 - up to 7 nodes in the tree of 4-byte constants - still is: out of memory at 8 GB)
 HARNESS h_poolm_4_8_4() { pool_seq<true, 4, 8, 4>(); }
 HARNESS h_poolm_1_8_1() { pool_seq<true, 1, 8, 1>(); }
